@@ -220,6 +220,8 @@ pub fn prof_c13(t: Tier) -> Profile {
     p.subscriptions = true;
     p.handler_actions = true;
     p.weird_cutoffs = true;
+    // deferred writes parked at the moment of the fault (decoder 2)
+    p.writers = crate::choice::dv() >= 2;
     p.max_actions = 30;
     let mut p = sized(p, t);
     if t == Tier::Thorough {
